@@ -40,6 +40,18 @@ def showOut : RbOut Nat → String
   | .num n => "n=" ++ toString n
   | .flag b => if b then "b=1" else "b=0"
 
+def stepOp (s : State) (op : RbOp Nat) : State × String :=
+  match RbStore.step s op with
+  | .error e => (s, "!" ++ e.toString)
+  | .ok (s', out) =>
+    -- a value returned by pop has left the container; everything else is in the stores
+    (s', showOut out ++ " | " ++ delta (RbStore.liveVals s) (RbStore.liveVals s'))
+
+def stepParsed (s : State) (args : List String) : State × String :=
+  match parseOp args with
+  | none => (s, "bad-op")
+  | some op => stepOp s op
+
 def step (s : State) (args : List String) : State × String :=
   match args with
   | ["reset"] => ([], "ok")
@@ -48,14 +60,17 @@ def step (s : State) (args : List String) : State × String :=
     match id.toNat? >>= s.find with
     | some (_, b) => (s, s!"{b.pos},{b.size},{b.cap}")
     | none => (s, "-")
-  | _ =>
-  match parseOp args with
-  | none => (s, "bad-op")
-  | some op =>
-    match RbStore.step s op with
-    | .error e => (s, "!" ++ e.toString)
-    | .ok (s', out) =>
-      -- a value returned by pop has left the container; everything else is in the stores
-      (s', showOut out ++ " | " ++ delta (RbStore.liveVals s) (RbStore.liveVals s'))
+  | [op, id, i] =>
+    -- aliasing pushes `rb.push_back(rb[i])` etc.: the argument is the current value of the buffer's own element i
+    if op == "pbs" || op == "pfs" || op == "ebs" || op == "efs" then
+      match id.toNat?, i.toNat? with
+      | some idn, some inn =>
+        match RbStore.step s (.get idn inn) with
+        | .ok (_, .val v) => stepOp s (if op == "pbs" || op == "ebs" then .pushBack idn v else .pushFront idn v)
+        | .ok _ => (s, "bad-op")
+        | .error e => (s, "!" ++ e.toString)
+      | _, _ => (s, "bad-op")
+    else stepParsed s args
+  | _ => stepParsed s args
 
 end Tulz.Drv.Rb
